@@ -367,6 +367,10 @@ func (c *client) Increment(i *hrpc.Mutate) (int64, error) {
 			len(r.Cells))
 	}
 
+	if len(r.Cells[0].Value) != 8 {
+		return 0, fmt.Errorf("increment returned a value of %d bytes, but we expected exactly 8",
+			len(r.Cells[0].Value))
+	}
 	val := binary.BigEndian.Uint64(r.Cells[0].Value)
 	return int64(val), nil
 }
